@@ -4,14 +4,20 @@
 (* strings, operators numbered in the order of their addresses) against      *)
 (* Coordination: ONE hidden choice per (wallet, hash), per (seed, number of  *)
 (* unique operators) and per seed must explain every call of every member.   *)
+(* Every call is made ON an executor instance; a member keeps ONE real       *)
+(* coordinationExecutor per (wallet, view of its operators) for the whole    *)
+(* run, members handle different subsets / orders of seeds, and control      *)
+(* calls are made on fresh executors.                                        *)
 (* Events (harness: /verif/harness/pkg/tbtc/c22_test.go):                    *)
-(*   Reset                      forget the call history (not the choices)    *)
-(*   Seed(w, h, seed)           getSeed returned seed for wallet w, hash h   *)
-(*   SeedError(w)               getSeed failed (safe block hash unknown)     *)
-(*   Leader(seed, ops, leader)  getLeader with local view ops returned leader*)
+(*   Reset                      forget the call records (not the choices,    *)
+(*                              not the executors)                           *)
+(*   NewExecutor(e, w, ops)     an executor for wallet w with view ops       *)
+(*   Seed(e, h, seed)           getSeed on e returned seed (safe hash h)     *)
+(*   SeedError(e)               getSeed failed (safe block hash unknown)     *)
+(*   Leader(e, seed, leader)    getLeader on e returned leader               *)
 (*                              (0 = an address that is no operator)         *)
-(*   Checklist(seed, b, idx, out)  window.index() = idx for the window at b; *)
-(*                              getActionsChecklist(idx, seed) = out         *)
+(*   Checklist(e, seed, b, idx, out)  window.index() = idx for the window at *)
+(*                              b; getActionsChecklist(idx, seed) = out      *)
 EXTENDS Coordination, TraceKit
 
 VARIABLE l
@@ -19,25 +25,29 @@ tvars == <<vars, l>>
 TInit == Init /\ l = 1 /\ HwmInit
 IsEvent(e) == l <= Len(Trace) /\ Trace[l].event = e /\ l' = l + 1
 
-TReset == IsEvent("Reset") /\ hist' = {} /\ UNCHANGED <<seedOf, pick, draw>>
+TReset == IsEvent("Reset") /\ hist' = {} /\ UNCHANGED <<seedOf, pick, draw, permOf, execs, cache>>
 
-TSeed == IsEvent("Seed") /\ GetSeed(Trace[l].w, Trace[l].h, Trace[l].seed)
-TSeedError == IsEvent("SeedError") /\ GetSeedFails(Trace[l].w)
+TNewExecutor == IsEvent("NewExecutor") /\ NewExecutor(Trace[l].e, Trace[l].w, Trace[l].ops)
+
+TSeed == IsEvent("Seed") /\ GetSeed(Trace[l].e, Trace[l].h, Trace[l].seed)
+TSeedError == IsEvent("SeedError") /\ GetSeedFails(Trace[l].e)
 
 TLeader ==
     /\ IsEvent("Leader")
-    /\ \E r \in 1..Len(SortedUnique(Trace[l].ops)) :
-          /\ SortedUnique(Trace[l].ops)[r] = Trace[l].leader
-          /\ GetLeader(Trace[l].seed, Trace[l].ops, r)
+    /\ Trace[l].e \in DOMAIN execs
+    /\ LET su == SortedUnique(execs[Trace[l].e].ops) IN
+         \E r \in 1..Len(su) :
+            /\ su[r] = Trace[l].leader
+            /\ GetLeader(Trace[l].e, Trace[l].seed, r)
 
 TChecklist ==
     /\ IsEvent("Checklist")
     /\ Trace[l].idx = Index(Trace[l].b)
     /\ \E hb \in BOOLEAN :
           /\ Trace[l].out = Checklist(Index(Trace[l].b), hb)
-          /\ GetChecklist(Trace[l].seed, Trace[l].b, hb)
+          /\ GetChecklist(Trace[l].e, Trace[l].seed, Trace[l].b, hb)
 
-TNext == TReset \/ TSeed \/ TSeedError \/ TLeader \/ TChecklist
+TNext == TReset \/ TNewExecutor \/ TSeed \/ TSeedError \/ TLeader \/ TChecklist
 TSpec == TInit /\ [][TNext]_tvars
 Hwm == HwmConstraint(l)
 Accepted == HwmAccepted
